@@ -182,6 +182,23 @@ def plans(draw, nodes, links, origins, dests):
     for d in dests:
         ops.append(["dest", d["id"]])
     ops = list(draw(st.permutations(ops)))
+    # replacement histories: a throwaway element first, (use), then the real one on the same edge / node
+    for _ in range(draw(st.sampled_from([0, 0, 0, 1, 2]))):
+        ids = [l["id"] for l in links] + [o["id"] for o in origins] + [d["id"] for d in dests]
+        i = draw(st.sampled_from(ids))
+
+        def adds(op):
+            return (op[0] in ("link", "origin", "dest") and op[1] == i) or (op[0] in ("links", "path") and i in op[1]) or (
+                op[0] == "path" and ((op[2] and any(o["id"] == i and o["node"] == next(l for l in links if l["id"] == op[1][0])["up"] for o in origins))
+                                     or (op[3] and any(d["id"] == i and d["node"] == next(l for l in links if l["id"] == op[1][-1])["down"] for d in dests))))
+
+        first = next((k for k, op in enumerate(ops) if adds(op)), None)
+        if first is None:
+            continue
+        pos = draw(st.integers(0, first))
+        ops.insert(pos, ["dummy", i])
+        if draw(st.booleans()):
+            ops.insert(pos + 1, [draw(st.sampled_from(["read", "trystep"]))])
     # interleave reads / steps of the partially built network (histories: build, use, extend, use)
     for _ in range(draw(st.sampled_from([0, 0, 1, 2]))):
         ops.insert(draw(st.integers(0, len(ops))), [draw(st.sampled_from(["read", "trystep"]))])
@@ -199,7 +216,7 @@ def specs(
     max_ops=10,
     min_ops=0,
     integer_a="mixed",
-    names="id",
+    names="mixed",
     with_plan=True,
     max_segments=5,
     vsl_prob=4,
@@ -242,6 +259,8 @@ def specs(
         if pars["phi"] is None:
             pars["phi"] = draw(fl(0, 5))
     sp = dict(nodes=nodes_, links=links, origins=origins, dests=dests, pars=pars)
+    if names == "mixed":
+        names = "drawn" if draw(st.booleans()) else "id"
     if names == "drawn":
         # distinct names, but not derived from the ids and not sorted like them
         pool = draw(st.permutations(range(len(nodes_) + len(links) + len(origins) + len(dests))))
